@@ -70,6 +70,7 @@ def _concurrent(r):
     s.family = sc["name"].split("/")[0] if sc["name"][:3] in ("C07", "C12") else "C07"
     base = os.path.join(tlc.scratch_root(), "replayc")
     ex = conc.Explorer(s, base)
+    ex.probe()
     rec = ex.execute(tuple(r["schedule"]), None, collect=False)
     shutil.rmtree(base, ignore_errors=True)
     print("schedule:", " ".join(r["schedule"]))
